@@ -86,7 +86,11 @@ func TestVerifC05SendServer(t *testing.T) {
 		}
 		io := &c05sIO{far: &frag.Defragger{}, block: make(chan struct{})}
 		var loop *c05sLoop
-		c05sRun(raw, io, func(_ int, data []byte, addr string) error {
+		run := c05sRun
+		if c.K == "sendlong" {
+			run = c05sRunLong // one history of > 65536 fragmented sends through one receiveLoop
+		}
+		run(raw, io, func(_ int, data []byte, addr string) error {
 			if loop == nil {
 				loop = c05sStart(c.Sid, io)
 			}
